@@ -244,7 +244,7 @@ class C29(dst.Check):
         'small ones element by element.',
         'Values are periodic in the element index (period 2*{251,509,1021}): an algorithm error that displaces data by '
         'a multiple of the period would be missed.',
-        'A run killed by the wall-clock budget (20 s) is classified hang; simulated deadlock reports are hang too.',
+        'A run killed by the wall-clock budget (20 s, then once more with 120 s) is classified hang; simulated deadlock reports are hang too.',
         'An abort whose message names a requirement (invalid_argument "can\'t be used ...", power of two, ...) and a '
         'non-MPI_SUCCESS return code seen by every rank are "refused", not violations.',
         'Receive buffers of non-root ranks (reduce, gather(v)) are valid canary buffers and must stay untouched; exscan '
@@ -345,6 +345,11 @@ class C29(dst.Check):
         try:
             rc, out, err, to = mc.run_smpi(sd, plan['np'], plan['plat'], plan['hosts'], plan['cfg'],
                                            mc.coll_plan_text(plan), timeout=20)
+            if to:
+                # a big plan on a loaded machine (alltoall rdb, 17 ranks x 4705 doubles: 26 s) is not a hang: only a run
+                # that also exhausts a generous budget is reported as one
+                rc, out, err, to = mc.run_smpi(sd, plan['np'], plan['plat'], plan['hosts'], plan['cfg'],
+                                               mc.coll_plan_text(plan), timeout=120)
         finally:
             mc.cleanup(sd)
         R, T, D, last = {}, {}, set(), {}
@@ -501,7 +506,13 @@ class C29(dst.Check):
                     j = last.get('-1')
                 if j is not None:
                     i = j
-            if i is None:
+            if i is None and 'suspect' in plan and any(is_suspect_call(plan, c) for c in calls):
+                # every call completed and the run died afterwards (heap corruption noticed in MPI_Finalize...): blamed on the
+                # suspect like every other failure of the run, keyed by its last call, so that a known finding can name it
+                j = max(k for k, c in enumerate(calls) if is_suspect_call(plan, c))
+                coll, algo, tag = self._tag(plan, j)
+                tag = tag.replace(' ctx=-]', ' ctx=finalize]')
+            elif i is None:
                 coll, algo, tag = 'finalize', 'none', '[after the last call]'
             else:
                 coll, algo, tag = self._tag(plan, i)
